@@ -3376,10 +3376,12 @@ class EntityFixup(MutableMapping[str, str]):
         if self._matcher is None:
             # Sort longer values first, so they are checked before smaller
             # counterparts.
-            sections: Iterable[str] = map(re.escape, sorted(self._fixup.keys(), key=len, reverse=True))
+            sections: list[str] = [re.escape(key) for key in sorted(self._fixup.keys(), key=len, reverse=True)]
+            # With no known fixups, the alternation must not start with an empty branch (it would match just "$").
+            sections.append('[a-z_][a-z0-9_]*')
             # ! maybe, $, any known fixups, then a default any-identifier check.
             self._matcher = re.compile(
-                rf'(!)?\$({"|".join(sections)}|[a-z_][a-z0-9_]*)',
+                rf'(!)?\$({"|".join(sections)})',
                 re.IGNORECASE,
             )
 
